@@ -1,4 +1,631 @@
 import OtelVerif.Model.C07
-/-! C07 property theorems (stub) -/
+import OtelVerif.Gen.PdataCensus
+/-!
+# C07 — data-model copy, move, remove and read-only operations have value semantics
+
+Theorems about the heap model of generated pointer slices (`Model/C07.lean`, repaired `CopyTo`):
+for **every** program of public operations over any number of slices, starting from **any**
+well-separated state (arbitrary contents, arbitrary garbage beyond `len`), what the readers show is
+what plain lists with assignment semantics would show (`C07_refines`), distinct slices never share
+an element (`C07_separation`), and the clauses of the property follow.
+-/
 namespace OtelVerif.C07
+
+/-! ## small lemmas -/
+
+theorem upd_same {β : Type} (f : Nat → β) (i : Nat) (v : β) : upd f i v i = v := by simp [upd]
+theorem upd_other {β : Type} (f : Nat → β) (i j : Nat) (v : β) (h : j ≠ i) : upd f i v j = f j := by simp [upd, h]
+
+theorem map_upd_of_not_mem (f : Nat → Nat) (x v : Nat) (l : List Nat) (h : x ∉ l) : l.map (upd f x v) = l.map f := by
+  apply List.map_congr_left
+  intro y hy
+  exact upd_other f x y v (fun e => h (e ▸ hy))
+
+theorem map_upd_nodup (f : Nat → Nat) (o v : Nat) (l : List Nat) (i : Nat) (hn : l.Nodup) (hi : l[i]? = some o) :
+    l.map (upd f o v) = (l.map f).set i v := by
+  induction l generalizing i with
+  | nil => simp at hi
+  | cons x xs ih =>
+    have hx := (List.nodup_cons.mp hn)
+    cases i with
+    | zero =>
+      simp at hi; subst hi
+      simp [upd_same, map_upd_of_not_mem f x v xs hx.1]
+    | succ j =>
+      simp at hi
+      have ho : o ∈ xs := List.mem_of_getElem? hi
+      have : x ≠ o := fun e => hx.1 (e ▸ ho)
+      simp [upd_other f o x v this, ih j hx.2 hi]
+
+theorem keep_sublist {α : Type} (l : List α) (m : List Bool) : (keep l m).Sublist l := by
+  induction l generalizing m with
+  | nil => simp [keep]
+  | cons x xs ih =>
+    cases m with
+    | nil => simp [keep]
+    | cons b bs =>
+      cases b
+      · simpa [keep] using (ih bs).cons_cons x
+      · simpa [keep] using (ih bs).cons x
+
+theorem map_keep {α β : Type} (f : α → β) (l : List α) (m : List Bool) : (keep l m).map f = keep (l.map f) m := by
+  induction l generalizing m with
+  | nil => simp [keep]
+  | cons x xs ih =>
+    cases m with
+    | nil => simp [keep]
+    | cons b bs => cases b <;> simp [keep, ih]
+
+/-- with a predicate on the element, `keep` is `filter` of the negation -/
+theorem keep_map_pred {α : Type} (p : α → Bool) (l : List α) : keep l (l.map p) = l.filter (fun x => !p x) := by
+  induction l with
+  | nil => simp [keep]
+  | cons x xs ih => cases h : p x <;> simp [keep, h, ih]
+
+theorem assign_frame (objs : Nat → Nat) (ds xs : List Nat) (x : Nat) (h : x ∉ ds) : assign objs ds xs x = objs x := by
+  induction ds generalizing objs xs with
+  | nil => simp [assign]
+  | cons d ds ih =>
+    cases xs with
+    | nil => simp [assign]
+    | cons y ys =>
+      simp only [assign]
+      rw [ih _ _ (fun hm => h (List.mem_cons_of_mem _ hm))]
+      exact upd_other _ _ _ _ (fun e => h (e ▸ List.mem_cons_self))
+
+/-- element-wise copy into pairwise distinct destinations that are not sources = parallel assignment -/
+theorem assign_map (objs : Nat → Nat) (ds xs : List Nat) (hn : ds.Nodup) (hd : ∀ d ∈ ds, d ∉ xs)
+    (hl : ds.length = xs.length) : ds.map (assign objs ds xs) = xs.map objs := by
+  induction ds generalizing objs xs with
+  | nil => cases xs with
+    | nil => rfl
+    | cons _ _ => simp at hl
+  | cons d ds ih =>
+    cases xs with
+    | nil => simp at hl
+    | cons y ys =>
+      have hnd := List.nodup_cons.mp hn
+      have hdy : d ∉ y :: ys := hd d List.mem_cons_self
+      simp only [assign, List.map_cons]
+      rw [assign_frame _ _ _ _ hnd.1, upd_same]
+      rw [ih (upd objs d (objs y)) ys hnd.2
+        (fun e he hm => hd e (List.mem_cons_of_mem _ he) (List.mem_cons_of_mem _ hm)) (by simpa using hl)]
+      rw [map_upd_of_not_mem _ _ _ _ (fun hm => hdy (List.mem_cons_of_mem _ hm))]
+
+/-! ## separation invariant -/
+
+/-- distinct live handles reach disjoint objects; nothing is assumed about the slots beyond `len` -/
+structure Inv (s : St) : Prop where
+  lt : ∀ a, ∀ o ∈ (s.hd a).live, o < s.next
+  nodup : ∀ a, (s.hd a).live.Nodup
+  disj : ∀ a b, a ≠ b → ∀ o ∈ (s.hd a).live, o ∉ (s.hd b).live
+
+/-- copy and move are between distinct values -/
+def WfOp : Op → Prop
+  | .copyTo a b => a ≠ b
+  | .moveAndAppendTo a b _ => a ≠ b
+  | _ => True
+
+instance (op : Op) : Decidable (WfOp op) := by cases op <;> simp only [WfOp] <;> infer_instance
+
+theorem inv_init : Inv St.init := ⟨by simp [St.init], by simp [St.init], by simp [St.init]⟩
+
+/-- one handle gets a new live list made of some of its old elements and fresh objects -/
+theorem inv_update {s : St} (hi : Inv s) (a : Nat) (l : List Nat) (t : List (Option Nat)) (objs' : Nat → Nat)
+    (next' : Nat) (ro' : Nat → Bool) (hnext : s.next ≤ next') (hnd : l.Nodup)
+    (hmem : ∀ o ∈ l, (o ∈ (s.hd a).live ∨ s.next ≤ o) ∧ o < next') :
+    Inv { objs := objs', next := next', hd := upd s.hd a ⟨l, t⟩, ro := ro' } := by
+  refine ⟨?_, ?_, ?_⟩
+  · intro c o ho
+    by_cases hc : c = a
+    · subst hc; simp only [upd_same] at ho; exact (hmem o ho).2
+    · simp only [upd_other _ _ _ _ hc] at ho; exact Nat.lt_of_lt_of_le (hi.lt c o ho) hnext
+  · intro c
+    by_cases hc : c = a
+    · subst hc; simpa only [upd_same] using hnd
+    · simpa only [upd_other _ _ _ _ hc] using hi.nodup c
+  · intro c d hcd o ho
+    by_cases hc : c = a
+    · subst hc
+      have hd : d ≠ c := fun e => hcd e.symm
+      simp only [upd_same] at ho
+      simp only [upd_other _ _ _ _ hd]
+      rcases (hmem o ho).1 with h | h
+      · exact hi.disj c d hcd o h
+      · intro hm; have := hi.lt d o hm; omega
+    · simp only [upd_other _ _ _ _ hc] at ho
+      by_cases hd : d = a
+      · subst hd
+        simp only [upd_same]
+        intro hm
+        rcases (hmem o hm).1 with h | h
+        · exact hi.disj c d hcd o ho h
+        · have := hi.lt c o ho; omega
+      · simp only [upd_other _ _ _ _ hd]; exact hi.disj c d hcd o ho
+
+theorem PSt.ext' (p q : PSt) (hv : p.val = q.val) (hr : p.ro = q.ro) : p = q := by
+  cases p; cases q; simp_all
+
+/-- contents after an update of one handle -/
+theorem abs_update_val (s : St) (a : Nat) (h' : Hdr) (objs' : Nat → Nat) (next' : Nat) (v : List Nat)
+    (ha : h'.live.map objs' = v)
+    (hframe : ∀ c, c ≠ a → ∀ o ∈ (s.hd c).live, objs' o = s.objs o) :
+    (abs { objs := objs', next := next', hd := upd s.hd a h', ro := s.ro }).val = upd (abs s).val a v := by
+  funext c
+  by_cases hc : c = a
+  · subst hc; simp [abs, upd_same, ha]
+  · simp only [abs, upd_other _ _ _ _ hc]
+    exact List.map_congr_left (hframe c hc)
+
+/-! ## each operation: invariant kept, readers show the pure result -/
+
+theorem append_spec {s : St} (hi : Inv s) (a c : Nat) :
+    Inv (appendEmpty s a c) ∧ (abs (appendEmpty s a c)).val = upd (abs s).val a ((abs s).val a ++ [0]) := by
+  have hfresh : ∀ d, s.next ∉ (s.hd d).live := fun d hm => Nat.lt_irrefl _ (hi.lt d _ hm)
+  constructor
+  · apply inv_update hi a _ _ _ _ _ (Nat.le_succ _)
+    · refine List.nodup_append.mpr ⟨hi.nodup a, by simp, ?_⟩
+      intro x hx y hy; simp at hy; subst hy; intro e; subst e; exact hfresh a hx
+    · intro o ho
+      simp only [List.mem_append, List.mem_singleton] at ho
+      rcases ho with h | h
+      · exact ⟨Or.inl h, Nat.lt_succ_of_lt (hi.lt a o h)⟩
+      · subst h; exact ⟨Or.inr (Nat.le_refl _), Nat.lt_succ_self _⟩
+  · apply abs_update_val
+    · simp only [List.map_append, List.map_cons, List.map_nil, upd_same, abs]
+      rw [map_upd_of_not_mem _ _ _ _ (hfresh a)]
+    · intro d _ o ho
+      exact upd_other _ _ _ _ (fun e => hfresh d (e ▸ ho))
+
+theorem removeIf_spec {s : St} (hi : Inv s) (a : Nat) (m : List Bool) :
+    Inv (removeIf s a m) ∧ (abs (removeIf s a m)).val = upd (abs s).val a (keep ((abs s).val a) m) := by
+  have hsub := keep_sublist (s.hd a).live m
+  constructor
+  · exact inv_update hi a _ _ _ _ _ (Nat.le_refl _) ((hi.nodup a).sublist hsub)
+      (fun o ho => ⟨Or.inl (hsub.subset ho), hi.lt a o (hsub.subset ho)⟩)
+  · apply abs_update_val
+    · simp [abs, map_keep]
+    · intros; rfl
+
+theorem ensureCap_spec {s : St} (hi : Inv s) (a n : Nat) :
+    Inv (ensureCap s a n) ∧ (abs (ensureCap s a n)).val = (abs s).val := by
+  unfold ensureCap
+  by_cases h : n ≤ (s.hd a).cap
+  · simp [h, hi]
+  · simp only [h, if_false]
+    constructor
+    · exact inv_update hi a _ _ _ _ _ (Nat.le_refl _) (hi.nodup a) (fun o ho => ⟨Or.inl ho, hi.lt a o ho⟩)
+    · funext c
+      by_cases hc : c = a
+      · subst hc; simp [abs, upd_same]
+      · simp [abs, upd_other _ _ _ _ hc]
+
+def leNat : Nat → Nat → Bool := fun x y => decide (x ≤ y)
+
+theorem sort_spec {s : St} (hi : Inv s) (a : Nat) :
+    Inv (sortH s a) ∧ (abs (sortH s a)).val = upd (abs s).val a (((abs s).val a).mergeSort leNat) := by
+  have hp := List.mergeSort_perm (s.hd a).live (fun x y => decide (s.objs x ≤ s.objs y))
+  constructor
+  · exact inv_update hi a _ _ _ _ _ (Nat.le_refl _) (hp.nodup_iff.mpr (hi.nodup a))
+      (fun o ho => ⟨Or.inl (hp.mem_iff.mp ho), hi.lt a o (hp.mem_iff.mp ho)⟩)
+  · apply abs_update_val
+    · simp only [abs]
+      exact List.map_mergeSort (fun _ _ _ _ => rfl)
+    · intros; rfl
+
+theorem set_spec {s : St} (hi : Inv s) (a i v o : Nat) (ho : (s.hd a).live[i]? = some o) :
+    Inv { s with objs := upd s.objs o v } ∧
+    (abs { s with objs := upd s.objs o v }).val = upd (abs s).val a (((abs s).val a).set i v) := by
+  constructor
+  · exact ⟨hi.lt, hi.nodup, hi.disj⟩
+  · have hmem : o ∈ (s.hd a).live := List.mem_of_getElem? ho
+    funext c
+    by_cases hc : c = a
+    · subst hc
+      simp only [abs, upd_same]
+      exact map_upd_nodup _ _ _ _ _ (hi.nodup c) ho
+    · simp only [abs, upd_other _ _ _ _ hc]
+      exact map_upd_of_not_mem _ _ _ _ (fun hm => hi.disj a c (fun e => hc e.symm) o hmem hm)
+
+/-- the common core of both branches of the repaired `CopyTo`: the destination becomes some of its
+own old elements followed by fresh ones, then the element-wise copy -/
+theorem copy_core {s : St} (hi : Inv s) (a b : Nat) (hab : a ≠ b) (reused : List Nat) (k : Nat) (t : List (Option Nat))
+    (hsub : reused.Sublist (s.hd b).live) (hlen : reused.length + k = (s.hd a).live.length) :
+    let nl := reused ++ List.range' s.next k
+    let s' : St := { objs := assign s.objs nl (s.hd a).live, next := s.next + k, hd := upd s.hd b ⟨nl, t⟩, ro := s.ro }
+    Inv s' ∧ (abs s').val = upd (abs s).val b ((abs s).val a) := by
+  intro nl s'
+  have hr_lt : ∀ o ∈ reused, o < s.next := fun o ho => hi.lt b o (hsub.subset ho)
+  have hf_ge : ∀ o ∈ List.range' s.next k, s.next ≤ o ∧ o < s.next + k := by
+    intro o ho; simp [List.mem_range'_1] at ho; exact ho
+  have hnd : nl.Nodup := by
+    refine List.nodup_append.mpr ⟨(hi.nodup b).sublist hsub, List.nodup_range', ?_⟩
+    intro x hx y hy e; subst e
+    have := hr_lt x hx; have := (hf_ge x hy).1; omega
+  have hmem : ∀ o ∈ nl, (o ∈ (s.hd b).live ∨ s.next ≤ o) ∧ o < s.next + k := by
+    intro o ho
+    rcases List.mem_append.mp ho with h | h
+    · exact ⟨Or.inl (hsub.subset h), Nat.lt_of_lt_of_le (hr_lt o h) (Nat.le_add_right _ _)⟩
+    · exact ⟨Or.inr (hf_ge o h).1, (hf_ge o h).2⟩
+  have hnotsrc : ∀ d ∈ nl, d ∉ (s.hd a).live := by
+    intro d hd hm
+    rcases (hmem d hd).1 with h | h
+    · exact hi.disj b a (fun e => hab e.symm) d h hm
+    · have := hi.lt a d hm; omega
+  constructor
+  · exact inv_update hi b nl t _ _ _ (Nat.le_add_right _ _) hnd hmem
+  · apply abs_update_val
+    · simp only [abs]
+      exact assign_map _ _ _ hnd hnotsrc (by simp [nl, hlen])
+    · intro c hc o ho
+      apply assign_frame
+      intro hm
+      rcases (hmem o hm).1 with h | h
+      · exact hi.disj c b hc o ho h
+      · have := hi.lt c o ho; omega
+
+theorem copyTo_spec {s : St} (hi : Inv s) (a b : Nat) (hab : a ≠ b) :
+    Inv (copyTo s a b) ∧ (abs (copyTo s a b)).val = upd (abs s).val b ((abs s).val a) := by
+  unfold copyTo
+  by_cases h : (s.hd a).live.length ≤ (s.hd b).cap
+  · simp only [h, if_true]
+    exact copy_core hi a b hab _ _ _ (List.take_sublist _ _) (by simp [List.length_take]; omega)
+  · simp only [h, if_false]
+    have := copy_core hi a b hab [] (s.hd a).live.length [] (List.nil_sublist _) (by simp)
+    simpa using this
+
+theorem moveAndAppendTo_live (s : St) (a b c : Nat) (hab : a ≠ b) :
+    ((moveAndAppendTo s a b c).hd b).live = (s.hd b).live ++ (s.hd a).live ∧ ((moveAndAppendTo s a b c).hd a).live = [] ∧
+    ∀ d, d ≠ a → d ≠ b → (moveAndAppendTo s a b c).hd d = s.hd d := by
+  have hba : b ≠ a := fun e => hab e.symm
+  refine ⟨?_, by simp [moveAndAppendTo, upd_same], fun d hda hdb => by simp [moveAndAppendTo, upd_other _ _ _ _ hda, upd_other _ _ _ _ hdb]⟩
+  simp only [moveAndAppendTo, upd_other _ _ _ _ hba, upd_same]
+  by_cases hn : (s.hd b).isNil = true
+  · have : (s.hd b).live = [] := by
+      simp only [Hdr.isNil, Bool.and_eq_true, List.isEmpty_iff] at hn; exact hn.1
+    simp [hn, this]
+  · simp only [hn]
+    by_cases hl : (s.hd a).live.length ≤ (s.hd b).tail.length <;> simp [hl]
+
+theorem moveAndAppendTo_spec {s : St} (hi : Inv s) (a b c : Nat) (hab : a ≠ b) :
+    Inv (moveAndAppendTo s a b c) ∧
+    (abs (moveAndAppendTo s a b c)).val = upd (upd (abs s).val b ((abs s).val b ++ (abs s).val a)) a [] := by
+  obtain ⟨hb, ha, hother⟩ := moveAndAppendTo_live s a b c hab
+  have hobjs : (moveAndAppendTo s a b c).objs = s.objs := rfl
+  have hnext : (moveAndAppendTo s a b c).next = s.next := rfl
+  have hba : b ≠ a := fun e => hab e.symm
+  -- membership in a live list after the move
+  have hlive : ∀ d o, o ∈ ((moveAndAppendTo s a b c).hd d).live →
+      (d = b ∧ (o ∈ (s.hd b).live ∨ o ∈ (s.hd a).live)) ∨ (d ≠ a ∧ d ≠ b ∧ o ∈ (s.hd d).live) := by
+    intro d o ho
+    by_cases hda : d = a
+    · subst hda; rw [ha] at ho; simp at ho
+    · by_cases hdb : d = b
+      · subst hdb; rw [hb] at ho; exact Or.inl ⟨rfl, List.mem_append.mp ho⟩
+      · rw [hother d hda hdb] at ho; exact Or.inr ⟨hda, hdb, ho⟩
+  constructor
+  · refine ⟨?_, ?_, ?_⟩
+    · intro d o ho
+      rw [hnext]
+      rcases hlive d o ho with ⟨_, h | h⟩ | ⟨_, _, h⟩
+      · exact hi.lt b o h
+      · exact hi.lt a o h
+      · exact hi.lt d o h
+    · intro d
+      by_cases hda : d = a
+      · subst hda; rw [ha]; exact List.nodup_nil
+      · by_cases hdb : d = b
+        · subst hdb; rw [hb]
+          exact List.nodup_append.mpr ⟨hi.nodup d, hi.nodup a, fun x hx y hy e => hi.disj d a hda x hx (e ▸ hy)⟩
+        · rw [hother d hda hdb]; exact hi.nodup d
+    · intro d e hde o ho hm
+      rcases hlive d o ho with ⟨rfl, h⟩ | ⟨hda, hdb, h⟩
+      · rcases hlive e o hm with ⟨rfl, _⟩ | ⟨hea, heb, h'⟩
+        · exact hde rfl
+        · rcases h with h | h
+          · exact hi.disj d e hde o h h'
+          · exact hi.disj a e (fun x => hea x.symm) o h h'
+      · rcases hlive e o hm with ⟨rfl, h'⟩ | ⟨_, _, h'⟩
+        · rcases h' with h' | h'
+          · exact hi.disj d e hde o h h'
+          · exact hi.disj d a hda o h h'
+        · exact hi.disj d e hde o h h'
+  · funext d
+    simp only [abs, hobjs]
+    by_cases hda : d = a
+    · subst hda; rw [ha]; simp [upd_same]
+    · by_cases hdb : d = b
+      · subst hdb; rw [hb]; simp [upd_other _ _ _ _ hda, upd_same]
+      · rw [hother d hda hdb]; simp [upd_other _ _ _ _ hda, upd_other _ _ _ _ hdb]
+
+/-! ## one step -/
+
+theorem step_spec {s : St} (hi : Inv s) (op : Op) (hw : WfOp op) :
+    Inv (step s op).1 ∧ abs (step s op).1 = (pstep (abs s) op).1 ∧ (step s op).2 = (pstep (abs s) op).2 := by
+  have habs_ro : (abs s).ro = s.ro := rfl
+  cases op with
+  | append a c =>
+    simp only [step, pstep, habs_ro]
+    by_cases hr : s.ro a = true
+    · simp [hr, hi]
+    · simp only [hr, Bool.false_eq_true, ↓reduceIte]
+      obtain ⟨h1, h2⟩ := append_spec hi a c
+      exact ⟨h1, PSt.ext' _ _ h2 rfl, by first | rfl | trivial⟩
+  | set a i v =>
+    simp only [step, pstep, habs_ro]
+    by_cases hr : s.ro a = true
+    · simp [hr, hi]
+    · simp only [hr, Bool.false_eq_true, ↓reduceIte]
+      cases ho : (s.hd a).live[i]? with
+      | none =>
+        have : ¬ i < ((abs s).val a).length := by
+          simp only [abs, List.length_map]; exact fun h => by simp at ho; omega
+        simp [this, hi]
+      | some o =>
+        have : i < ((abs s).val a).length := by
+          simp only [abs, List.length_map]; exact (List.getElem?_eq_some_iff.mp ho).1
+        obtain ⟨h1, h2⟩ := set_spec hi a i v o ho
+        simp only [this, if_true]
+        exact ⟨h1, PSt.ext' _ _ h2 rfl, by first | rfl | trivial⟩
+  | removeIf a m =>
+    simp only [step, pstep, habs_ro]
+    by_cases hr : s.ro a = true
+    · simp [hr, hi]
+    · simp only [hr, Bool.false_eq_true, ↓reduceIte]
+      obtain ⟨h1, h2⟩ := removeIf_spec hi a m
+      exact ⟨h1, PSt.ext' _ _ h2 rfl, by first | rfl | trivial⟩
+  | ensureCap a n =>
+    simp only [step, pstep, habs_ro]
+    by_cases hr : s.ro a = true
+    · simp [hr, hi]
+    · simp only [hr, Bool.false_eq_true, ↓reduceIte]
+      obtain ⟨h1, h2⟩ := ensureCap_spec hi a n
+      refine ⟨h1, PSt.ext' _ _ h2 ?_, by first | rfl | trivial⟩
+      unfold ensureCap; by_cases h : n ≤ (s.hd a).cap <;> simp [h, abs]
+  | sort a =>
+    simp only [step, pstep, habs_ro]
+    by_cases hr : s.ro a = true
+    · simp [hr, hi]
+    · simp only [hr, Bool.false_eq_true, ↓reduceIte]
+      obtain ⟨h1, h2⟩ := sort_spec hi a
+      exact ⟨h1, PSt.ext' _ _ h2 rfl, by first | rfl | trivial⟩
+  | copyTo a b =>
+    simp only [step, pstep, habs_ro]
+    by_cases hr : s.ro b = true
+    · simp [hr, hi]
+    · simp only [hr, Bool.false_eq_true, ↓reduceIte]
+      obtain ⟨h1, h2⟩ := copyTo_spec hi a b hw
+      refine ⟨h1, PSt.ext' _ _ h2 ?_, by first | rfl | trivial⟩
+      unfold copyTo; by_cases h : (s.hd a).live.length ≤ (s.hd b).cap <;> simp [h, abs]
+  | moveAndAppendTo a b c =>
+    simp only [step, pstep, habs_ro]
+    by_cases hr : (s.ro a || s.ro b) = true
+    · simp [hr, hi]
+    · simp only [hr, Bool.false_eq_true, ↓reduceIte]
+      obtain ⟨h1, h2⟩ := moveAndAppendTo_spec hi a b c hw
+      exact ⟨h1, PSt.ext' _ _ h2 rfl, by first | rfl | trivial⟩
+  | markRO a =>
+    simp only [step, pstep]
+    refine ⟨⟨hi.lt, hi.nodup, hi.disj⟩, ?_, ?_⟩ <;> first | rfl | trivial
+
+/-! ## the property theorems -/
+
+/-- **separation / independence invariant**: from any well-separated state, every program of public
+operations (copy and move between distinct values) leads to a state in which distinct slices share
+no element — whatever garbage the backing arrays hold beyond `len` -/
+theorem C07_separation (prog : List Op) (s : St) (hi : Inv s) (hw : ∀ op ∈ prog, WfOp op) : Inv (run s prog) := by
+  induction prog generalizing s with
+  | nil => exact hi
+  | cons op ops ih =>
+    exact ih _ (step_spec hi op (hw op List.mem_cons_self)).1 (fun o ho => hw o (List.mem_cons_of_mem _ ho))
+
+/-- **refinement**: what the readers show after any program is what plain lists with assignment
+semantics give -/
+theorem C07_refines (prog : List Op) (s : St) (hi : Inv s) (hw : ∀ op ∈ prog, WfOp op) :
+    abs (run s prog) = prun (abs s) prog := by
+  induction prog generalizing s with
+  | nil => rfl
+  | cons op ops ih =>
+    obtain ⟨h1, h2, _⟩ := step_spec hi op (hw op List.mem_cons_self)
+    simp only [run, prun]
+    rw [ih _ h1 (fun o ho => hw o (List.mem_cons_of_mem _ ho)), h2]
+
+/-- … and after every step of it (every prefix), for every handle -/
+theorem C07_refines_every_step (pre suf : List Op) (s : St) (hi : Inv s) (hw : ∀ op ∈ pre ++ suf, WfOp op) (a : Nat) :
+    (abs (run s pre)).val a = (prun (abs s) pre).val a := by
+  rw [C07_refines pre s hi (fun o ho => hw o (List.mem_append_left _ ho))]
+
+/-- panics are exactly those of the specification (mutator on read-only data, index out of range) -/
+theorem C07_step_panics (s : St) (hi : Inv s) (op : Op) (hw : WfOp op) : (step s op).2 = (pstep (abs s) op).2 :=
+  (step_spec hi op hw).2.2
+
+/-- copying makes the destination equal to the source, whatever the destination was (empty, shorter,
+longer, previously filtered, pre-sized), and changes nothing else -/
+theorem C07_copy_eq (s : St) (hi : Inv s) (a b : Nat) (hab : a ≠ b) (hro : s.ro b = false) :
+    (abs (step s (.copyTo a b)).1).val b = (abs s).val a ∧
+    ∀ c, c ≠ b → (abs (step s (.copyTo a b)).1).val c = (abs s).val c := by
+  have h := (step_spec hi (.copyTo a b) hab).2.1
+  rw [h]
+  have : (abs s).ro b = false := hro
+  simp only [pstep, this]
+  exact ⟨upd_same _ _ _, fun c hc => upd_other _ _ _ _ hc⟩
+
+/-- an operation changes only the values it targets: mutation of one value never changes another -/
+theorem C07_independent (s : St) (hi : Inv s) (op : Op) (hw : WfOp op) (c : Nat) (hc : c ∉ targets op) :
+    (abs (step s op).1).val c = (abs s).val c := by
+  rw [(step_spec hi op hw).2.1]
+  cases op with
+  | append a n => simp only [targets, List.mem_singleton] at hc; simp only [pstep]; split <;> simp [upd_other _ _ _ _ hc]
+  | set a i v =>
+    simp only [targets, List.mem_singleton] at hc; simp only [pstep]
+    split
+    · rfl
+    · split <;> simp [upd_other _ _ _ _ hc]
+  | removeIf a m => simp only [targets, List.mem_singleton] at hc; simp only [pstep]; split <;> simp [upd_other _ _ _ _ hc]
+  | ensureCap a n => simp only [pstep]; split <;> rfl
+  | sort a => simp only [targets, List.mem_singleton] at hc; simp only [pstep]; split <;> simp [upd_other _ _ _ _ hc]
+  | copyTo a b => simp only [targets, List.mem_singleton] at hc; simp only [pstep]; split <;> simp [upd_other _ _ _ _ hc]
+  | moveAndAppendTo a b n =>
+    simp only [targets, List.mem_cons, List.not_mem_nil, or_false, not_or] at hc
+    simp only [pstep]; split <;> simp [upd_other _ _ _ _ hc.1, upd_other _ _ _ _ hc.2]
+  | markRO a => rfl
+
+/-- full independence after a copy (or at any time): a value is what it was as long as no later
+operation of an arbitrary program targets it -/
+theorem C07_frame_run (prog : List Op) (s : St) (hi : Inv s) (hw : ∀ op ∈ prog, WfOp op) (c : Nat)
+    (hc : ∀ op ∈ prog, c ∉ targets op) : (abs (run s prog)).val c = (abs s).val c := by
+  induction prog generalizing s with
+  | nil => rfl
+  | cons op ops ih =>
+    have hwo := hw op List.mem_cons_self
+    simp only [run]
+    rw [ih _ (step_spec hi op hwo).1 (fun o ho => hw o (List.mem_cons_of_mem _ ho)) (fun o ho => hc o (List.mem_cons_of_mem _ ho))]
+    exact C07_independent s hi op hwo c (hc op List.mem_cons_self)
+
+/-- the copy stays equal to what its source was, whatever is later done to the source or to any
+other value -/
+theorem C07_copy_independent (s : St) (hi : Inv s) (a b : Nat) (hab : a ≠ b) (hro : s.ro b = false) (prog : List Op)
+    (hw : ∀ op ∈ prog, WfOp op) (hc : ∀ op ∈ prog, b ∉ targets op) :
+    (abs (run s (.copyTo a b :: prog))).val b = (abs s).val a := by
+  simp only [run]
+  rw [C07_frame_run prog _ (step_spec hi (.copyTo a b) hab).1 hw b hc]
+  exact (C07_copy_eq s hi a b hab hro).1
+
+theorem C07_move_empties_src (s : St) (hi : Inv s) (a b n : Nat) (hab : a ≠ b) (hra : s.ro a = false) (hrb : s.ro b = false) :
+    (abs (step s (.moveAndAppendTo a b n)).1).val a = [] := by
+  rw [(step_spec hi (.moveAndAppendTo a b n) hab).2.1]
+  have h1 : (abs s).ro a = false := hra
+  have h2 : (abs s).ro b = false := hrb
+  simp [pstep, h1, h2, upd_same]
+
+theorem C07_move_append (s : St) (hi : Inv s) (a b n : Nat) (hab : a ≠ b) (hra : s.ro a = false) (hrb : s.ro b = false) :
+    (abs (step s (.moveAndAppendTo a b n)).1).val b = (abs s).val b ++ (abs s).val a := by
+  rw [(step_spec hi (.moveAndAppendTo a b n) hab).2.1]
+  have h1 : (abs s).ro a = false := hra
+  have h2 : (abs s).ro b = false := hrb
+  simp [pstep, h1, h2, upd_same, upd_other _ _ _ _ (fun e => hab e.symm : b ≠ a)]
+
+/-- remove-if keeps exactly the elements for which the predicate answered false, in order -/
+theorem C07_remove_if_filter (s : St) (hi : Inv s) (a : Nat) (hro : s.ro a = false) (p : Nat → Bool) :
+    (abs (step s (.removeIf a (((abs s).val a).map p))).1).val a = ((abs s).val a).filter (fun x => !p x) := by
+  rw [(step_spec hi (.removeIf a (((abs s).val a).map p)) trivial).2.1]
+  have h1 : (abs s).ro a = false := hro
+  simp [pstep, h1, upd_same, keep_map_pred]
+
+theorem C07_remove_if_mask (s : St) (hi : Inv s) (a : Nat) (hro : s.ro a = false) (m : List Bool) :
+    (abs (step s (.removeIf a m)).1).val a = keep ((abs s).val a) m := by
+  rw [(step_spec hi (.removeIf a m) trivial).2.1]
+  have h1 : (abs s).ro a = false := hro
+  simp [pstep, h1, upd_same]
+
+/-- sorting permutes without loss and orders -/
+theorem C07_sort_perm (s : St) (hi : Inv s) (a : Nat) (hro : s.ro a = false) :
+    ((abs (step s (.sort a)).1).val a).Perm ((abs s).val a) ∧
+    ((abs (step s (.sort a)).1).val a).Pairwise (· ≤ ·) := by
+  rw [(step_spec hi (.sort a) trivial).2.1]
+  have h1 : (abs s).ro a = false := hro
+  simp only [pstep, h1, Bool.false_eq_true, ↓reduceIte, upd_same]
+  refine ⟨List.mergeSort_perm _ _, ?_⟩
+  have := List.pairwise_mergeSort (le := fun x y : Nat => decide (x ≤ y))
+    (fun a b c hab hbc => by simp at *; omega) (fun a b => by simp; omega) ((abs s).val a)
+  simpa using this
+
+/-- read-only: every mutator targeting a read-only value panics and changes nothing at all
+(so every reader of every value agrees with before) -/
+theorem C07_readonly (s : St) (op : Op) (a : Nat) (hro : s.ro a = true) (ha : a ∈ targets op) : step s op = (s, true) := by
+  cases op with
+  | append b n => simp only [targets, List.mem_singleton] at ha; subst ha; simp [step, hro]
+  | set b i v => simp only [targets, List.mem_singleton] at ha; subst ha; simp [step, hro]
+  | removeIf b m => simp only [targets, List.mem_singleton] at ha; subst ha; simp [step, hro]
+  | ensureCap b n => simp only [targets, List.mem_singleton] at ha; subst ha; simp [step, hro]
+  | sort b => simp only [targets, List.mem_singleton] at ha; subst ha; simp [step, hro]
+  | copyTo b c => simp only [targets, List.mem_singleton] at ha; subst ha; simp [step, hro]
+  | moveAndAppendTo b c n =>
+    simp only [targets, List.mem_cons, List.not_mem_nil, or_false] at ha
+    rcases ha with rfl | rfl <;> simp [step, hro]
+  | markRO b => simp [targets] at ha
+
+theorem C07_markRO (s : St) (a : Nat) : (step s (.markRO a)).1.ro a = true ∧ abs (step s (.markRO a)).1 = { abs s with ro := upd s.ro a true } :=
+  ⟨by simp [step, upd_same], rfl⟩
+
+theorem ro_mono (s : St) (op : Op) (a : Nat) (hro : s.ro a = true) : (step s op).1.ro a = true := by
+  cases op <;> simp only [step] <;> (try split) <;> (try split) <;>
+    simp_all [appendEmpty, removeIf, ensureCap, sortH, copyTo, moveAndAppendTo, upd] <;> (try split) <;> simp_all
+
+/-- once read-only, always read-only, and frozen: no program whatsoever changes the value again,
+while every reader keeps working (`abs` is total) -/
+theorem C07_readonly_frozen (prog : List Op) (s : St) (hi : Inv s) (hw : ∀ op ∈ prog, WfOp op) (a : Nat) (hro : s.ro a = true) :
+    (run s prog).ro a = true ∧ (abs (run s prog)).val a = (abs s).val a := by
+  induction prog generalizing s with
+  | nil => exact ⟨hro, rfl⟩
+  | cons op ops ih =>
+    have hwo := hw op List.mem_cons_self
+    have := ih _ (step_spec hi op hwo).1 (fun o ho => hw o (List.mem_cons_of_mem _ ho)) (ro_mono s op a hro)
+    simp only [run]
+    refine ⟨this.1, ?_⟩
+    rw [this.2]
+    by_cases ha : a ∈ targets op
+    · rw [C07_readonly s op a hro ha]
+    · exact C07_independent s hi op hwo a ha
+
+/-- soundness of the search oracle the driver evaluates on the implementation's observations -/
+theorem C07_check_sound (H : Nat) (before : PSt) (op : Op) (after : Nat → List Nat) (p : Bool)
+    (h : obsStep H before op after p = true) :
+    (pstep before op).2 = p ∧ ∀ a, a < H → (pstep before op).1.val a = after a := by
+  simp only [obsStep, eqUpTo, Bool.and_eq_true, beq_iff_eq, List.all_eq_true, List.mem_range] at h
+  exact ⟨h.1, fun a ha => h.2 a ha⟩
+
+/-- The property for the modelled family, in one statement.  **Partial** with respect to the property
+as stated ("every slice, map, value and struct type"): proved for generated pointer slices whose
+elements carry scalar fields; nested elements, `pcommon.Map`/`Value`/`Slice`, value slices and
+message structs with optional / one-of fields have no Lean model and are checked on the real code
+by reference-model oracles only (harnesses `tree`, `metric`, `witness`). -/
+theorem C07_value_semantics_partial (prog : List Op) (s : St) (hi : Inv s) (hw : ∀ op ∈ prog, WfOp op) :
+    Inv (run s prog) ∧ abs (run s prog) = prun (abs s) prog ∧
+    (∀ c, (∀ op ∈ prog, c ∉ targets op) → (abs (run s prog)).val c = (abs s).val c) ∧
+    (∀ a, s.ro a = true → (run s prog).ro a = true ∧ (abs (run s prog)).val a = (abs s).val a) :=
+  ⟨C07_separation prog s hi hw, C07_refines prog s hi hw, fun c hc => C07_frame_run prog s hi hw c hc,
+   fun a hro => C07_readonly_frozen prog s hi hw a hro⟩
+
+/-! ## tie of the read-only clause to the source (regenerated census, `Gen/PdataCensus.lean`)
+
+The model's `step` lets every mutator check the read-only flag before anything else.  The census
+(go/ast walk over every exported value-receiver method of the wrapper types in pcommon, plog,
+pmetric, ptrace, pprofile) says the same of the code: no method that writes through `orig` lacks
+`AssertMutable()` as its first statement; the only mutators by name that do not assert themselves
+are the four top-level `CopyTo`, which only call `….CopyTo` of the slice below (guarded). -/
+
+theorem C07_census_no_unguarded : Gen.PdataCensus.unguarded = [] := by decide
+
+theorem C07_census_delegating_reviewed :
+    Gen.PdataCensus.delegating =
+      [("plog", "Logs", "CopyTo"), ("pmetric", "Metrics", "CopyTo"), ("pprofile", "Profiles", "CopyTo"), ("ptrace", "Traces", "CopyTo")] := by
+  decide
+
+theorem C07_census_nonvacuous : 400 ≤ Gen.PdataCensus.nGuarded ∧ 300 ≤ Gen.PdataCensus.nReaders := by decide
+
+/-! ## the pinned `CopyTo` does not have the property (what the repair is for) -/
+
+def fill3 (a x y z : Nat) : List Op :=
+  [.append a 0, .set a 0 x, .append a 0, .set a 1 y, .append a 0, .set a 2 z]
+
+/-- a slice that had its middle element removed, then receives a copy of `[1,2,3]` -/
+def pinnedWitness : St := run St.init (fill3 0 1 2 3 ++ fill3 1 4 5 6 ++ [.removeIf 1 [false, true, false]])
+
+theorem C07_pinned_copy_aliases :
+    ((copyToPinned pinnedWitness 0 1).map (fun s => (abs s).val 1)) = some [1, 3, 3] ∧
+    (abs (copyTo pinnedWitness 0 1)).val 1 = [1, 2, 3] := by
+  constructor <;> decide
+
+theorem C07_pinned_copy_nil_deref :
+    (copyToPinned (run St.init [.append 0 0, .append 0 0, .ensureCap 1 4]) 0 1).isNone = true := by decide
+
+/-! ## non-vacuity -/
+
+example : Inv pinnedWitness := C07_separation _ _ inv_init (by decide)
+/-- the witness state really has a stale pointer beyond `len` that aliases a live element -/
+example : (pinnedWitness.hd 1).live = [3, 5] ∧ (pinnedWitness.hd 1).tail = [some 5] := by decide
+example : (abs (run St.init (fill3 0 1 2 3 ++ [.copyTo 0 1, .set 0 0 9, .moveAndAppendTo 0 1 8, .markRO 1, .append 1 9]))).val 1
+    = [1, 2, 3, 9, 2, 3] := by decide
+
 end OtelVerif.C07
